@@ -9,10 +9,13 @@ import (
 	"encoding/json"
 	"flag"
 	"fmt"
+	"math/big"
 	"os"
 	"path/filepath"
+	"runtime/debug"
 	"strings"
 
+	"github.com/hyperledger/firefly-signer/pkg/ethtypes"
 	"github.com/hyperledger/firefly-signer/pkg/rlp"
 	"verifharness/cv"
 )
@@ -241,9 +244,105 @@ func safeEncode(e rlp.Element) (out []byte, panicked bool) {
 	return e.Encode(), false
 }
 
+// results kept to be compared again after many other calls have run (a result that shares a buffer
+// with later calls, or package state corrupted by them, shows up as a change)
+type kept struct {
+	what     string
+	enc      []byte // as returned
+	encCopy  []byte
+	elem     rlp.Element // as returned by Decode
+	elemCopy rlp.Element
+}
+
+var retained []kept
+
+func cloneElem(e rlp.Element) rlp.Element {
+	if e == nil {
+		return nil
+	}
+	if !e.IsList() {
+		return rlp.Data(append([]byte{}, e.(rlp.Data)...))
+	}
+	l := rlp.List{}
+	for _, k := range e.(rlp.List) {
+		l = append(l, cloneElem(k))
+	}
+	return l
+}
+
+func retain(what string, enc []byte, elem rlp.Element) {
+	if len(enc) > 4096 || len(retained) >= 6000 {
+		return
+	}
+	retained = append(retained, kept{what, enc, append([]byte{}, enc...), elem, cloneElem(elem)})
+}
+
+func verifyRetained(st *cv.Stats) {
+	bad := 0
+	for _, k := range retained {
+		if !bytes.Equal(k.enc, k.encCopy) || !equalElem(k.elem, k.elemCopy) {
+			bad++
+			if bad <= 3 {
+				st.ImplFailures = append(st.ImplFailures, map[string]interface{}{"what": "a result returned earlier by Encode/Decode changed after later calls", "case": k.what})
+			}
+		}
+	}
+	st.Extra["retained_results_reverified"] = len(retained)
+}
+
+// concurrentPass encodes and decodes the same trees from several goroutines at once and compares with
+// the sequential results
+func concurrentPass(st *cv.Stats, trees []*tree) {
+	type res struct {
+		enc []byte
+		dec rlp.Element
+		pos int
+	}
+	seq := make([]res, len(trees))
+	for i, t := range trees {
+		enc, _ := safeEncode(t.elem())
+		d, pos, _, _ := safeDecode(enc)
+		seq[i] = res{append([]byte{}, enc...), cloneElem(d), pos}
+	}
+	const workers = 8
+	errs := make(chan string, workers)
+	done := make(chan bool, workers)
+	for g := 0; g < workers; g++ {
+		go func(g int) {
+			defer func() { done <- true }()
+			for rep := 0; rep < 3; rep++ {
+				for k := range trees {
+					i := (k*7 + g*13 + rep) % len(trees)
+					enc, p := safeEncode(trees[i].elem())
+					d, pos, err, p2 := safeDecode(enc)
+					if p || p2 || err != nil || !bytes.Equal(enc, seq[i].enc) || pos != seq[i].pos || !equalElem(d, seq[i].dec) {
+						select {
+						case errs <- trees[i].describe():
+						default:
+						}
+						return
+					}
+				}
+			}
+		}(g)
+	}
+	for g := 0; g < workers; g++ {
+		<-done
+	}
+	close(errs)
+	for e := range errs {
+		st.ImplFailures = append(st.ImplFailures, map[string]interface{}{"what": "Encode/Decode from concurrent goroutines differs from the sequential result", "tree": e})
+	}
+	st.Extra["concurrent_trees"] = len(trees)
+}
+
 func addEnc(w *cv.Writer, st *cv.Stats, t *tree, trail cv.DSL, seen map[string]bool) {
 	e := t.elem()
+	eCopy := cloneElem(e)
 	enc, p := safeEncode(e)
+	if !equalElem(e, eCopy) {
+		st.ImplFailures = append(st.ImplFailures, map[string]string{"what": "Encode modified the element it was given", "tree": t.describe()})
+	}
 	if p {
 		st.ImplFailures = append(st.ImplFailures, map[string]string{"what": "Encode panicked", "tree": t.describe()})
 		return
@@ -257,6 +356,7 @@ func addEnc(w *cv.Writer, st *cv.Stats, t *tree, trail cv.DSL, seen map[string]b
 		cls = 1
 	}
 	same := cls == 0 && equalElem(d, e)
+	retain(t.describe(), enc, d)
 	if !same || pos != len(enc) {
 		st.ImplFailures = append(st.ImplFailures, map[string]interface{}{"what": "Decode(Encode(t)++trail) did not return (t, len)", "tree": t.describe(), "trail": trail.Describe(), "class": cls, "pos": pos})
 	}
@@ -282,7 +382,14 @@ func max0(n int) int {
 
 func addDec(w *cv.Writer, st *cv.Stats, in cv.DSL, kind string, seen map[string]bool) {
 	b := in.Expand()
+	bCopy := append([]byte{}, b...)
 	e, pos, err, pan := safeDecode(b)
+	if !bytes.Equal(b, bCopy) {
+		st.ImplFailures = append(st.ImplFailures, map[string]interface{}{"what": "Decode modified its input", "input": in.Describe()})
+	}
+	if len(b) <= 4096 && !pan && err == nil {
+		retain("decode of "+in.Describe(), nil, e)
+	}
 	cls := 0
 	if pan {
 		cls = 2
@@ -330,6 +437,351 @@ func addDec(w *cv.Writer, st *cv.Stats, in cv.DSL, kind string, seen map[string]
 	}
 	w.Add(fmt.Sprintf("CDec %s %d %s %d %v", in.Coq(), cls, elem, max0(pos), stable),
 		desc{Kind: "decode/" + kind, Input: in.Describe(), Full: full, Impl: implDesc})
+}
+
+// ----- length-only encoding cases (payloads of 2^16 .. 2^27 bytes) -----
+
+// fillItems returns exactly n bytes that form a sequence of well-formed RLP items (one string element
+// with the fitting header, not necessarily canonical), so that it can serve as a list payload.
+func fillItems(n int, fill byte) cv.DSL {
+	switch {
+	case n <= 0:
+		return cv.Lit(nil)
+	case n == 1:
+		return cv.Lit([]byte{0x05})
+	case n <= 56:
+		return cv.Cat(cv.Lit([]byte{0x80 + byte(n-1)}), cv.Rep(fill|0x80, n-1))
+	case n <= 257:
+		return cv.Cat(cv.Lit([]byte{0xb8, byte(n - 2)}), cv.Rep(fill, n-2))
+	case n <= 65538:
+		return cv.Cat(cv.Lit([]byte{0xb9, byte((n - 3) >> 8), byte(n - 3)}), cv.Rep(fill, n-3))
+	default:
+		m := n - 4
+		return cv.Cat(cv.Lit([]byte{0xba, byte(m >> 16), byte(m >> 8), byte(m)}), cv.Rep(fill, m))
+	}
+}
+
+// refHdrLen: number of bytes RLP puts in front of a payload of n bytes (n not a single-byte string)
+func refHdrLen(n int) int {
+	if n <= 55 {
+		return 1
+	}
+	k := 0
+	for v := n; v > 0; v >>= 8 {
+		k++
+	}
+	return 1 + k
+}
+
+// addHdr encodes a real string (or a list whose payload is exactly n bytes) with pkg/rlp, checks on the
+// Go side that the payload was copied unchanged behind the header and that Decode returns the element
+// and the end position, and writes the header bytes + total length as a CHdr case: Rlp/Run.v compares
+// them with Rlp/Header.v (proved to be the prefix of the model's / the Yellow Paper's output).
+func addHdr(w *cv.Writer, st *cv.Stats, n int, isList bool, fill byte) {
+	defer debug.FreeOSMemory()
+	var e rlp.Element
+	var payload []byte // expected payload for strings; for lists computed from the children
+	what := fmt.Sprintf("string of %d bytes (byte i = 0x%02x + i>>3)", n, fill)
+	if !isList {
+		payload = make([]byte, n)
+		for i := range payload {
+			payload[i] = fill + byte(i>>3)
+		}
+		e = rlp.Data(payload)
+	} else {
+		// one big string child with the fitting header + single bytes filling the remainder
+		m := n
+		for m > 0 && m+refHdrLen(m) > n {
+			m--
+		}
+		if m == 1 {
+			m = 0
+		}
+		l := rlp.List{}
+		rem := n
+		if m > 1 {
+			d := make([]byte, m)
+			for i := range d {
+				d[i] = fill + byte(i>>3)
+			}
+			l = append(l, rlp.Data(d))
+			rem -= m + refHdrLen(m)
+		}
+		for ; rem > 0; rem-- {
+			l = append(l, rlp.Data{byte(rem & 0x7f)})
+		}
+		e = l
+		what = fmt.Sprintf("list [string of %d bytes, %d single bytes] (payload %d)", m, len(l)-1, n)
+	}
+	enc, pan := safeEncode(e)
+	if pan {
+		st.ImplFailures = append(st.ImplFailures, map[string]interface{}{"what": "Encode panicked", "tree": what})
+		return
+	}
+	hl := len(enc) - n
+	if hl < 0 {
+		hl = len(enc)
+	}
+	if hl > 16 {
+		hl = 16
+	}
+	hdr := append([]byte{}, enc[:hl]...)
+	// Go-side oracles on the implementation alone: payload intact, Decode returns (t, len)
+	if isList {
+		for _, k := range e.(rlp.List) {
+			payload = append(payload, k.Encode()...)
+		}
+	}
+	if len(enc) < n || !bytes.Equal(enc[len(enc)-n:], payload) {
+		st.ImplFailures = append(st.ImplFailures, map[string]interface{}{"what": "Encode did not copy the payload behind the header", "tree": what, "header": hex.EncodeToString(hdr), "total": len(enc)})
+	}
+	payload = nil
+	d, pos, err, dp := safeDecode(enc)
+	if dp || err != nil || pos != len(enc) || !equalElem(d, e) {
+		st.ImplFailures = append(st.ImplFailures, map[string]interface{}{"what": "Decode(Encode(t)) did not return (t, len)", "tree": what, "header": hex.EncodeToString(hdr), "total": len(enc), "pos": pos, "panicked": dp, "error": err != nil})
+	}
+	st.Hit("hdr:payload=" + bucketBig(n))
+	st.Distinct++
+	kind := "false"
+	if isList {
+		kind = "true"
+	}
+	w.Add(fmt.Sprintf("CHdr %d %s %s %d", n, kind, cv.Lit(hdr).Coq(), len(enc)),
+		desc{Kind: "encode-header", Input: what, Impl: fmt.Sprintf("header=%s total=%d", hex.EncodeToString(hdr), len(enc))})
+}
+
+func bucketBig(n int) string {
+	switch {
+	case n < 1<<16:
+		return "<2^16"
+	case n < 1<<24:
+		return "2^16..2^24-1"
+	case n == 1<<24:
+		return "2^24"
+	default:
+		return ">2^24"
+	}
+}
+
+// addLongLenDecodes: long-form headers with every length-of-length 1..8 and a single non-zero length
+// byte at every position (so the length is v * 256^e, incl. non-minimal leading zeros), followed by
+// payloads whose sizes sit on the lengths a wrong shift / byte order in minimalBytesToInt64 or a wrong
+// position in extractLongLen would compute instead: the result class, the element or the returned
+// position differs.  Payloads travel as DSL (rep), so 64 KiB cases stay cheap.
+func addLongLenDecodes(w *cv.Writer, st *cv.Stats, r *cv.Rand, seen map[string]bool) {
+	emit := func(base byte, lb []byte, size int, kind string) {
+		hdr := append([]byte{base + byte(len(lb))}, lb...)
+		var pl cv.DSL
+		if base == 0xb7 {
+			pl = cv.Rep(0x41+byte(r.Intn(20)), size)
+		} else {
+			pl = fillItems(size, 0x21+byte(r.Intn(20)))
+		}
+		addDec(w, st, cv.Cat(cv.Lit(hdr), pl), kind, seen)
+	}
+	for _, base := range []byte{0xb7, 0xf7} {
+		for L := 1; L <= 8; L++ {
+			for i := 0; i < L; i++ {
+				vals := []byte{0x01, 0xff}
+				if i == 0 {
+					vals = append(vals, 0x80, 0x7f)
+				}
+				for _, val := range vals {
+					lb := make([]byte, L)
+					lb[i] = val
+					sizes := map[int]bool{0: true}
+					for e := 0; e <= 2; e++ {
+						s := int(val) << (8 * e)
+						if s <= 66000 {
+							sizes[s-1], sizes[s] = true, true
+							if e == L-1-i {
+								sizes[s+1] = true
+							}
+						}
+					}
+					var ordered []int
+					for s := 0; s <= 66001; s++ {
+						if sizes[s] {
+							ordered = append(ordered, s)
+						}
+					}
+					for _, s := range ordered {
+						emit(base, lb, s, fmt.Sprintf("longlen:L=%d", L))
+					}
+				}
+			}
+		}
+		// all length bytes distinct (byte order), exact fit and the reversed-order value
+		for _, lb := range [][]byte{{0x01, 0x02}, {0x02, 0x01}, {0x00, 0x01, 0x02}, {0x01, 0x00, 0x02}, {0x01, 0x02, 0x03}, {0x00, 0x00, 0x01, 0x02, 0x03},
+			{0x00, 0x00, 0x00, 0x00, 0x00, 0x01, 0x00, 0x04}, {0x00, 0x00, 0x00, 0x00, 0x00, 0x01, 0x00, 0x00}} {
+			v := 0
+			for _, b := range lb {
+				v = v<<8 | int(b)
+			}
+			rv := 0
+			for j := len(lb) - 1; j >= 0; j-- {
+				rv = rv<<8 | int(lb[j])
+			}
+			for _, s := range []int{v, v - 1, rv} {
+				if s >= 0 && s <= 70000 {
+					emit(base, lb, s, "longlen:mixed")
+				}
+			}
+		}
+	}
+}
+
+// ----- rlp.go helpers (WrapInt / WrapAddress / Data.Int / IntOrZero / BytesNotNil / Address / ToData) -----
+
+func optDSL(b []byte, isNil bool) string {
+	if isNil {
+		return "None"
+	}
+	return "(Some " + cv.Compress(b).Coq() + ")"
+}
+
+func addHelpers(w *cv.Writer, st *cv.Stats, r *cv.Rand, thorough bool) {
+	guard := func(what string, f func()) {
+		defer func() {
+			if x := recover(); x != nil {
+				st.ImplFailures = append(st.ImplFailures, map[string]interface{}{"what": "rlp.go helper panicked", "helper": what, "panic": fmt.Sprint(x)})
+			}
+		}()
+		f()
+	}
+	// integers: 0, 1, 0x7f, 0x80, 2^8k-1, 2^8k, 2^8k+1 (k = 1..33), random widths
+	var ints []*big.Int
+	for _, v := range []int64{0, 1, 2, 0x7f, 0x80, 0xff} {
+		ints = append(ints, big.NewInt(v))
+	}
+	for k := 1; k <= 33; k++ {
+		p := new(big.Int).Lsh(big.NewInt(1), uint(8*k))
+		ints = append(ints, new(big.Int).Sub(p, big.NewInt(1)), p, new(big.Int).Add(p, big.NewInt(1)))
+	}
+	nr := 40
+	if thorough {
+		nr = 2000
+	}
+	for i := 0; i < nr; i++ {
+		ints = append(ints, new(big.Int).SetBytes(r.Bytes(1+r.Intn(40))))
+	}
+	for _, n := range ints {
+		n := n
+		guard("WrapInt", func() {
+			d := rlp.WrapInt(n)
+			back := d.Int()
+			bs := "None"
+			if back != nil {
+				bs = fmt.Sprintf("(Some %s)", back.String())
+			}
+			st.Hit(fmt.Sprintf("help:WrapInt:bytes=%s", bucket(len(d))))
+			st.Distinct++
+			w.Add(fmt.Sprintf("CWrapInt %s %s %s", n.String(), cv.Lit(d).Coq(), bs),
+				desc{Kind: "helper/WrapInt", Input: n.String(), Impl: fmt.Sprintf("data=%s int=%s", hex.EncodeToString(d), bs)})
+		})
+	}
+	// Data values: nil, empty, around 20 bytes, leading zeros, long
+	type dcase struct {
+		b     []byte
+		isNil bool
+	}
+	dcs := []dcase{{nil, true}, {[]byte{}, false}, {[]byte{0}, false}, {[]byte{0, 0, 1}, false}, {[]byte{0x80}, false}}
+	for _, l := range []int{1, 2, 8, 19, 20, 20, 20, 21, 32, 33, 40, 64, 300} {
+		dcs = append(dcs, dcase{r.Bytes(l), false})
+	}
+	dcs = append(dcs, dcase{make([]byte, 20), false}, dcase{bytes.Repeat([]byte{0xff}, 20), false}, dcase{append([]byte{0}, r.Bytes(19)...), false}, dcase{make([]byte, 70000), false})
+	for i := 0; i < nr; i++ {
+		dcs = append(dcs, dcase{r.Bytes([]int{19, 20, 21, r.Intn(50)}[r.Intn(4)]), false})
+	}
+	for _, dc := range dcs {
+		dc := dc
+		guard("Data accessors", func() {
+			var d rlp.Data
+			if !dc.isNil {
+				d = rlp.Data(append([]byte{}, dc.b...))
+			}
+			i, iz, bnn, a := d.Int(), d.IntOrZero(), d.BytesNotNil(), d.Address()
+			is := "None"
+			if i != nil {
+				is = fmt.Sprintf("(Some %s)", i.String())
+			}
+			if iz == nil || bnn == nil {
+				st.ImplFailures = append(st.ImplFailures, map[string]interface{}{"what": "IntOrZero / BytesNotNil returned nil", "data": hex.EncodeToString(dc.b), "nil": dc.isNil})
+				return
+			}
+			var ab []byte
+			if a != nil {
+				ab = a[:]
+			}
+			st.Hit(fmt.Sprintf("help:Data:len=%s:addr=%v", bucket(len(dc.b)), a != nil))
+			st.Distinct++
+			w.Add(fmt.Sprintf("CData %s %s %s %s %s", optDSL(dc.b, dc.isNil), is, iz.String(), cv.Compress(bnn).Coq(), optDSL(ab, a == nil)),
+				desc{Kind: "helper/Data", Input: cv.Compress(dc.b).Describe(), Impl: fmt.Sprintf("nil=%v int=%s intOrZero=%s address=%s", dc.isNil, is, iz, hex.EncodeToString(ab))})
+			// the accessors must not modify the data
+			if !dc.isNil && !bytes.Equal([]byte(d), dc.b) {
+				st.ImplFailures = append(st.ImplFailures, map[string]interface{}{"what": "a Data accessor modified the data", "data": hex.EncodeToString(dc.b)})
+			}
+		})
+	}
+	// WrapAddress: nil pointer, zero, 0xff.., leading zero, random
+	addrs := [][]byte{nil, make([]byte, 20), bytes.Repeat([]byte{0xff}, 20), append([]byte{0}, r.Bytes(19)...)}
+	for i := 0; i < 6; i++ {
+		addrs = append(addrs, r.Bytes(20))
+	}
+	for _, ab := range addrs {
+		ab := ab
+		guard("WrapAddress", func() {
+			var a *ethtypes.Address0xHex
+			if ab != nil {
+				a = new(ethtypes.Address0xHex)
+				copy(a[:], ab)
+			}
+			d := rlp.WrapAddress(a)
+			st.Hit(fmt.Sprintf("help:WrapAddress:nil=%v", ab == nil))
+			st.Distinct++
+			w.Add(fmt.Sprintf("CWrapAddr %s %s", optDSL(ab, ab == nil), cv.Lit(d).Coq()),
+				desc{Kind: "helper/WrapAddress", Input: hex.EncodeToString(ab), Impl: hex.EncodeToString(d)})
+		})
+	}
+	// Element.ToData(): strings give themselves, lists nil Data
+	for i := 0; i < 24; i++ {
+		t := genTree(r, st, r.Intn(3), false)
+		guard("ToData", func() {
+			d := t.elem().ToData()
+			st.Hit(fmt.Sprintf("help:ToData:list=%v", t.list))
+			w.Add(fmt.Sprintf("CToData %s %s", t.coq(), optDSL(d, d == nil)),
+				desc{Kind: "helper/ToData", Input: t.describe(), Impl: fmt.Sprintf("nil=%v %s", d == nil, cv.Compress(d).Describe())})
+		})
+	}
+	// WrapString / WrapHex / MustWrapHex are not part of the model: plain Go-side oracles
+	for i := 0; i < 12; i++ {
+		b := r.Bytes([]int{0, 1, 2, 20, 55, 56}[r.Intn(6)])
+		guard("WrapString/WrapHex", func() {
+			st.Hit("help:WrapString/WrapHex")
+			if !bytes.Equal(rlp.WrapString(string(b)), b) {
+				st.ImplFailures = append(st.ImplFailures, map[string]interface{}{"what": "WrapString(s) is not the bytes of s", "input": hex.EncodeToString(b)})
+			}
+			for _, pfx := range []string{"", "0x"} {
+				d, err := rlp.WrapHex(pfx + hex.EncodeToString(b))
+				if err != nil || !bytes.Equal(d, b) || !bytes.Equal(rlp.MustWrapHex(pfx+hex.EncodeToString(b)), b) {
+					st.ImplFailures = append(st.ImplFailures, map[string]interface{}{"what": "WrapHex/MustWrapHex of a valid hex string is not its bytes", "input": pfx + hex.EncodeToString(b)})
+				}
+			}
+		})
+	}
+	for _, bad := range []string{"0", "0x0", "zz", "0x0g", "0x 00"} {
+		if d, err := rlp.WrapHex(bad); err == nil {
+			st.ImplFailures = append(st.ImplFailures, map[string]interface{}{"what": "WrapHex accepted an invalid hex string", "input": bad, "output": hex.EncodeToString(d)})
+		}
+		panicked := false
+		func() {
+			defer func() { panicked = recover() != nil }()
+			rlp.MustWrapHex(bad)
+		}()
+		if !panicked {
+			st.ImplFailures = append(st.ImplFailures, map[string]interface{}{"what": "MustWrapHex did not panic on an invalid hex string", "input": bad})
+		}
+	}
 }
 
 // ----- sweep digest, mirrors Rlp/Run.v -----
@@ -478,8 +930,12 @@ func main() {
 		nTrees = 6000
 	}
 	var encodings [][]byte
+	var conc []*tree
 	for i := 0; i < nTrees; i++ {
 		t := genTree(r, st, 1+r.Intn(8), i%12 == 0)
+		if len(conc) < 120 && i%12 != 0 {
+			conc = append(conc, t)
+		}
 		var trail cv.DSL
 		switch r.Intn(4) {
 		case 0:
@@ -665,6 +1121,8 @@ func main() {
 			}
 		}
 	}
+	// --- decoder: long-form length bytes at every position / length-of-length, DSL payloads ---
+	addLongLenDecodes(w, st, r, seen)
 	// --- decoder: random bytes ---
 	nRand := 300
 	maxLen := 4096
@@ -690,6 +1148,21 @@ func main() {
 		}
 	}
 	addDec(w, st, cv.Lit(nil), "empty", seen)
+	addHelpers(w, st, r, thorough)
+	concurrentPass(st, conc)
+	// --- encoder: real payloads around every length-of-length step up to 2^27 bytes, judged through the
+	// length-only header evaluator (Rlp/Header.v) ---
+	hdrSizes := []int{0, 2, 55, 56, 255, 256, 65535, 65536, 65537, 1<<24 - 1, 1 << 24, 1<<24 + 1, 1<<24 + 12345, 1 << 25, 1<<26 + 3, 1 << 27}
+	if thorough {
+		// every remaining bit of the fourth length byte (1 GiB payload: about 3 GiB of memory for a moment)
+		hdrSizes = append(hdrSizes, 1<<28+1, 1<<29+(1<<27), 1<<30)
+	}
+	for _, n := range hdrSizes {
+		addHdr(w, st, n, false, byte(0x30+r.Intn(64)))
+		addHdr(w, st, n, true, byte(0x30+r.Intn(64)))
+	}
+	verifyRetained(st)
+	retained = nil
 	if err := w.Flush(); err != nil {
 		panic(err)
 	}
@@ -706,7 +1179,7 @@ func main() {
 	for b := 0; b < 256; b++ {
 		blocks = append(blocks, fmt.Sprintf("(BLit \"%02x\", 1%%nat, %d)", b, blockDigest(1, []byte{byte(b)}, &count, &panics)))
 	}
-	sweepShards := 1
+	sweepShards := 4
 	if thorough {
 		sweepShards = 16
 		for b := 0; b < 256; b++ {
